@@ -100,6 +100,27 @@ def run(res, replay=None):
             else:
                 x = [c[k] + scale * rng.uniform(-2, 2) for k in range(3)]
             cases.append({"op": op, "args": [c, x], "radius": r, "scale": scale, "off": off})
+    if not replay:
+        # thin (but far from degenerate in floating point) triangles for the three-point sphere: small angle theta at each of the three
+        # arguments in turn; the unchanged code is accurate to ~1e2 u R there (measured), so anything that cancels like 1/theta^2 shows
+        for j in range(30 if tier == "quick" else 300):
+            th = rng.choice([1e-2, 1e-3, 1e-4, 1e-5])
+            scale = rng.choice([1.0, 1e-6, 1e6])
+            apex = [scale * rng.uniform(-1, 1) for _ in range(3)]
+            d = [rng.uniform(-1, 1) for _ in range(3)]
+            nd = math.sqrt(sum(x * x for x in d)) or 1.0
+            d = [x / nd for x in d]
+            e = [rng.uniform(-1, 1) for _ in range(3)]
+            dp = sum(a * b for a, b in zip(d, e))
+            e = [a - dp * b for a, b in zip(e, d)]
+            ne = math.sqrt(sum(x * x for x in e))
+            if ne < 1e-3:
+                continue
+            e = [x / ne for x in e]
+            l0, l1 = scale * (0.5 + rng.unit()), scale * (0.5 + rng.unit())
+            pts = [[apex[k] + l0 * d[k] for k in range(3)], [apex[k] + l1 * (math.cos(th) * d[k] + math.sin(th) * e[k]) for k in range(3)], apex]
+            rot = j % 3
+            cases.append({"op": "sphere3", "args": pts[rot:] + pts[:rot], "scale": scale, "off": 0.0, "thin": th})
     wd = C.rundir("c19")
     os.makedirs(wd, exist_ok=True)
     cf = os.path.join(wd, "geom.cases")
@@ -182,9 +203,12 @@ def run(res, replay=None):
             if len(P) == 4:
                 cond = sc ** 3 / abs(float(dot(sub(P[0], P[3]), cross(sub(P[1], P[3]), sub(P[2], P[3])))))
             t = 1e-8 * mag * max(1.0, cond) ** 2 * (1 + abs(c["off"]) / sc)
+            if c.get("thin"):
+                t = 1e4 * 2.0 ** -53 * max(r, mag)      # relative to the (large) circumradius
             if any(abs(d - r) > t for d in ds):
                 bad(f"the sphere (centre {[float(x) for x in ctr]}, radius {r}) does not pass through the points (distances {ds})")
-            elif len(P) == 3 and abs(float(dot(sub(ctr, P[2]), cross(sub(P[0], P[2]), sub(P[1], P[2]))))) > t * nrm(cross(sub(P[0], P[2]), sub(P[1], P[2]))):
+            elif len(P) == 3 and abs(float(dot(sub(ctr, P[2]), cross(sub(P[0], P[2]), sub(P[1], P[2]))))) > (t / c["thin"] if c.get("thin") else t) * nrm(cross(sub(P[0], P[2]), sub(P[1], P[2]))):
+                # (thin triangles: the plane itself is only determined up to an angle u / theta by the rounded points, the centre is R away)
                 bad("three-point centre is not in the plane of the points")
             elif not o["same_via_boundary_points"]:
                 bad("from_boundary_points differs from the direct constructor")
